@@ -5,7 +5,7 @@
    any number of producers per peer) and hold for EVERY schedule.  That Go's
    channels, sync.Mutex and goroutine scheduling behave like that system is
    assumed, and monitored on the real device by the trace checker. *)
-From WG Require Import Base.Prelude Gen.Constants Pipeline.Model Pipeline.Spec Pipeline.Proofs.
+From WG Require Import Base.Prelude Gen.Constants Pipeline.Model Pipeline.Spec Pipeline.Proofs Pipeline.Refute.
 
 (* The queue depths the model abstracts from (it has unbounded queues). *)
 Theorem C12_constants :
@@ -47,6 +47,19 @@ Theorem C12_no_deadlock_of_pipeline : forall (P W : nat) (size : nat -> nat -> n
   exists a s', step P W size (run P W size init sched) a = Some s'.
 Proof. exact no_deadlock_reachable. Qed.
 Print Assumptions C12_no_deadlock_of_pipeline.
+
+(* Why invariant P2 ("locked BEFORE visible") is needed: in the same system with
+   the producer's Lock moved after the publication on the per-peer queue
+   (Pipeline/Refute.v) an explicit schedule emits a container none of whose 3
+   elements has been processed, after which the producer can never lock it and it
+   never reaches a worker -- emitted_processed and completeness are false there. *)
+Theorem C12_publish_before_lock_refuted :
+  exists sched, let s := run2 1 1 (fun _ _ => 3) (init2) sched in
+    In 0 (emitted (lanes2 s 0)) /\ proc2 s 0 0 = 0 /\ proc2 s 0 0 <> 3 /\
+    step2 1 1 (fun _ _ => 3) s (LockP 0 0) = None /\ step2 1 1 (fun _ _ => 3) s (Enq2' 0 0) = None /\
+    step2 1 1 (fun _ _ => 3) s (Grab' 0 0 0) = None.
+Proof. exact publish_before_lock_refuted. Qed.
+Print Assumptions C12_publish_before_lock_refuted.
 
 (* What a passing trace of a quiescent run of the real device means. *)
 Theorem C12_trace_checker_sound : forall t, holdsb t = true -> t_quiet t = true ->
